@@ -210,7 +210,7 @@ def run(ctx, report):
                 r_reach.finding(f"{cid}.bank_code", f"bank code {code!r}: character {code[i]!r} at index {i} is not of class {field[i]!r}; no valid {cc} IBAN contains it", where)
     # ------------------------------------------------------------------ R17-found: the lookup code finds listed banks again
     from .c12 import Harness
-    r_found = report.rule("R17-found", floor=40, what="a bank entry is found again (bank, BIC) from a structure-conforming IBAN built around its bank code: one entry per country, plus every all-zero / boundary code")
+    r_found = report.rule("R17-found", floor=40, what="a bank entry is found again (bank, BIC) from a structure-conforming IBAN built around its bank code: quick - one entry per country, every all-zero / all-nine code and a seeded sample of 1500 keys; thorough - every key")
     h = Harness(ctx, reg.banks)
     picked = {}
     for e in reg.banks:
@@ -223,25 +223,39 @@ def run(ctx, report):
                 picked[cc] = e
     todo = sorted(k for k in picked if isinstance(k, tuple))
     by_key = reg.index_by_bank_code()
-    for cc, code in todo:
-        spec = reg.countries[cc]
-        comps_l = reg.lookup_components(cc)
-        n = spec["bban_length"]
-        bban = ["0"] * n
-        pos = 0
-        for c in comps_l:
-            a, b = spec["positions"][c]
-            bban[a:b] = list(code[pos:pos + (b - a)])
-            pos += b - a
-        if pos != len(code):
-            continue
-        res = h.iban_lookup(cc, "".join(bban))
-        r_found.instance({"country": cc, "bank_code": code} if len(r_found.samples) < 3 else None)
-        first = by_key[(cc, code)][0]
-        if res[0] != "ret" or res[1][1] is not first:
-            got = f"raises {res[1].name}" if res[0] == "exc" else repr(res[1][1])[:120]
-            r_found.finding(f"found:{cc}:{code}", f"the listed bank ({cc}, {code!r}) is not found again from the IBAN {cc}00{''.join(bban)}: .bank gives {got}",
-                            "schwifty/bban.py", witness=f"{cc}00{''.join(bban)}")
+    if ctx.tier != "thorough":
+        import random as _random
+        rnd = _random.Random(104729 * (ctx.seed + 1))
+        rest = sorted(k for k in by_key if k not in picked and k[0] in reg.countries and lookup_fields.get(k[0]) is not None)
+        todo = sorted(set(todo) | set(rnd.sample(rest, min(1500, len(rest)))))
+    def found_chunk(chunk, rules):
+        r_found = rules["R17-found"]
+        for cc, code in chunk:
+            spec = reg.countries[cc]
+            comps_l = reg.lookup_components(cc)
+            n = spec["bban_length"]
+            bban = ["0"] * n
+            pos = 0
+            for c in comps_l:
+                a, b = spec["positions"][c]
+                bban[a:b] = list(code[pos:pos + (b - a)])
+                pos += b - a
+            if pos != len(code):
+                continue
+            res = h.iban_lookup(cc, "".join(bban))
+            r_found.instance({"country": cc, "bank_code": code} if len(r_found.samples) < 3 else None)
+            first = by_key[(cc, code)][0]
+            if res[0] != "ret" or res[1][1] is not first:
+                got = f"raises {res[1].name}" if res[0] == "exc" else repr(res[1][1])[:120]
+                r_found.finding(f"found:{cc}:{code}", f"the listed bank ({cc}, {code!r}) is not found again from the IBAN {cc}00{''.join(bban)}: .bank gives {got}",
+                                "schwifty/bban.py", witness=f"{cc}00{''.join(bban)}")
+
+    from ..par import replay, run_recorded
+    nchunks = 16 if len(todo) > 64 else 1
+    if todo:
+        h.iban_lookup(todo[0][0], "0" * reg.countries[todo[0][0]]["bban_length"])   # index models built before the fork
+    for recs, _ in run_recorded(["R17-found"], found_chunk, [todo[i::nchunks] for i in range(nchunks)]):
+        replay({"R17-found": r_found}, recs, cap=12)
     report.not_decided.append("agreement of the bundled tables with SWIFT's registry / the national bank lists (no oracle in the sandbox)")
     report.assumptions.append("registry files are composed as stated in C18 (checked by the C18 rules against registry.py)")
 
